@@ -30,6 +30,12 @@ RULE = ('A scenario = 1-4 user threads, each with a short program over '
         'after it returned (A4); no deadlock, termination within the step '
         'budget (A5). Non-trivial: >= 2 threads and >= 1 preemption; '
         'distinct by (scenario, schedule).')
+RULE += (' ' +
+         'Added in later rounds: two-thread reconnect scenarios with a '
+         'recording second link (library locks scheduler-aware); component '
+         'route (delegated to C14): an exception handler queues a farewell '
+         'and calls the plain disconnect() - 2 origins x 3 versions x 3 '
+         'compression modes x 4 finals x 4 chains. ')
 LEVEL_TEXT = ('Systematic schedule exploration (bounded-preemption '
               'enumeration, exhaustive for the listed small scenarios and '
               'bound; seeded random schedules beyond) of the real write '
